@@ -126,12 +126,15 @@ def release_idiom(prog, chk, rid, fams=tuple(FAMILIES), floor=12):
         for f in family_functions(prog, fam):
             decs = atomic_calls(f, "decrement")
             tests = {}   # == node -> object text
+            inverted = set()
             for i, x in decs:
                 p = f.up(i)
                 pn = f.nodes[p] if p is not None else None
-                if pn is not None and pn["k"] == "BinaryOperator" and pn["op"] == "==" and \
+                if pn is not None and pn["k"] == "BinaryOperator" and pn["op"] in ("==", "!=") and \
                    any(q.is_zero(f, c) for c in pn["c"]):
                     tests[p] = x
+                    if pn["op"] == "!=":
+                        inverted.add(p)      # `decrement(..) != 0`: the FALSE edge is the one on which this handle was the last
                     # owned guard: `x->ref` (or x itself for Ptr) true on every path to the decrement
                     atoms = fin.dominating_atoms(f, f.node_pos(i))
                     want = [x + "->ref", x] if fam != "RefCount::Ptr" else [x]
@@ -179,7 +182,8 @@ def release_idiom(prog, chk, rid, fams=tuple(FAMILIES), floor=12):
                 return None
             for i, t, kind in rel:
                 atoms = fin.dominating_atoms(f, f.node_pos(i))
-                ok = any(a[1] and as_test(a[0]) is not None and same_obj(tests[as_test(a[0])], t) for a in atoms if a[0] != "case")
+                ok = any(as_test(a[0]) is not None and bool(a[1]) == (as_test(a[0]) not in inverted) and same_obj(tests[as_test(a[0])], t)
+                         for a in atoms if a[0] != "case")
                 if ok:
                     chk.ok(rid, f, "%s of %s under decrement == 0" % (kind, t), f.where(i), "true edge of the decrement test dominates", evals=len(atoms) or 1)
                 else:
